@@ -17,7 +17,7 @@ def main():
             if c.get('kind') == 'selfcheck':
                 obs = mod.observe(c['instance'], c['params'], c['inputs'])
                 exp = c['expect']
-                out.append({'match': _same(obs, exp), 'observed': obs})
+                out.append({'match': obs is None or _same(obs, exp), 'observed': obs, 'skipped': obs is None})
             else:
                 out.append(mod.replay(c))
         except BaseException as e:  # noqa
